@@ -152,6 +152,12 @@ func isFieldLoadOf(v ssa.Value, typPkg, typName, field string) (ssa.Value, bool)
 	if !ok || fa.Field >= st.NumFields() || st.Field(fa.Field).Name() != field {
 		return nil, false
 	}
+	// a variable that lives in a cell because a closure captures it, written once: the value written
+	if ld, isLd := fa.X.(*ssa.UnOp); isLd {
+		if sv := cellValue(ld); sv != nil {
+			return sv, true
+		}
+	}
 	return fa.X, true
 }
 
